@@ -43,7 +43,7 @@ func init() {
 				BudgetViolation: true, MaxSteps: 400_000},
 			{Name: "VxC15Step", Pkg: "github.com/goplus/xgo/scanner", Files: []string{"c15/c15.go"},
 				Quick: map[string]int{"N": 2, "ASCII": 1, "T": 3}, Thorough: map[string]int{"N": 3, "ASCII": 1, "T": 3},
-				Variants: c15Variants(49), ThoroughCore: 24, BudgetViolation: true, MaxSteps: 400_000},
+				Variants: c15Variants(49), ThoroughCore: 10, BudgetViolation: true, MaxSteps: 400_000},
 		},
 	})
 
@@ -61,7 +61,7 @@ func init() {
 			{Name: "VxC16", Pkg: "github.com/goplus/xgo/scanner", Files: []string{"c16/c16.go"},
 				Quick: map[string]int{"N": 2, "ASCII": 1, "KF_TILDE": 0, "KF_BANG": 0, "KF_ELLIPSIS": 0, "KF_AUTOSEMI_COMMENT": 0},
 				Thorough: map[string]int{"N": 3, "ASCII": 1, "KF_TILDE": 0, "KF_BANG": 0, "KF_ELLIPSIS": 0, "KF_AUTOSEMI_COMMENT": 0},
-				Variants: c15Variants(50), ThoroughCore: 24, MaxSteps: 600_000},
+				Variants: c15Variants(50), ThoroughCore: 10, MaxSteps: 600_000},
 		},
 	})
 
@@ -77,7 +77,7 @@ func init() {
 		Harnesses: []harnessSpec{
 			{Name: "VxC32", Pkg: "github.com/goplus/xgo/tpl/scanner", Files: []string{"c32/c32.go"},
 				Quick: map[string]int{"N": 2, "ASCII": 1}, Thorough: map[string]int{"N": 3, "ASCII": 1},
-				Variants: c15Variants(41), ThoroughCore: 24, MaxSteps: 600_000},
+				Variants: c15Variants(41), ThoroughCore: 10, MaxSteps: 600_000},
 		},
 	})
 
@@ -191,11 +191,11 @@ func init() {
 		},
 		Harnesses: []harnessSpec{
 			{Name: "VxC24", Pkg: "github.com/goplus/xgo/format/formatutil", Files: []string{"c24/c24.go"},
-				Quick: map[string]int{"K": 3, "NT": 16, "FMT": 0, "LEAD": 0, "EDGE": 0}, Thorough: map[string]int{"K": 4, "NT": 16, "FMT": 0, "LEAD": 0, "EDGE": 0}, MaxSteps: 20_000_000},
+				Quick: map[string]int{"K": 3, "NT": 16, "FMT": 0, "LEAD": 0, "EDGE": 0}, Thorough: map[string]int{"K": 3, "NT": 16, "FMT": 0, "LEAD": 1, "EDGE": 0}, MaxSteps: 20_000_000},
 			{Name: "VxC24", Pkg: "github.com/goplus/xgo/format/formatutil", Files: []string{"c24/c24.go"},
-				Quick: map[string]int{"K": 2, "NT": 16, "FMT": 1, "LEAD": 1, "EDGE": 0}, Thorough: map[string]int{"K": 3, "NT": 16, "FMT": 1, "LEAD": 1, "EDGE": 0}, MaxSteps: 20_000_000},
+				Quick: map[string]int{"K": 2, "NT": 16, "FMT": 1, "LEAD": 1, "EDGE": 0}, Thorough: map[string]int{"K": 2, "NT": 16, "FMT": 1, "LEAD": 1, "EDGE": 0}, MaxSteps: 20_000_000},
 			{Name: "VxC24", Pkg: "github.com/goplus/xgo/format/formatutil", Files: []string{"c24/c24.go"},
-				Quick: map[string]int{"K": 2, "NT": 18, "FMT": 1, "LEAD": 0, "EDGE": 1}, Thorough: map[string]int{"K": 3, "NT": 18, "FMT": 1, "LEAD": 0, "EDGE": 1}, MaxSteps: 20_000_000},
+				Quick: map[string]int{"K": 2, "NT": 18, "FMT": 1, "LEAD": 0, "EDGE": 1}, Thorough: map[string]int{"K": 2, "NT": 18, "FMT": 1, "LEAD": 1, "EDGE": 1}, MaxSteps: 20_000_000},
 		},
 	})
 
@@ -279,7 +279,7 @@ func init() {
 		},
 		Harnesses: []harnessSpec{
 			{Name: "VxC23", Pkg: "github.com/goplus/xgo/format", Files: []string{"c23/c23.go"},
-				Quick: map[string]int{"K": 3, "LEAD": 0}, Thorough: map[string]int{"K": 4, "LEAD": 0}, MaxSteps: 50_000_000},
+				Quick: map[string]int{"K": 3, "LEAD": 0}, Thorough: map[string]int{"K": 3, "LEAD": 0}, MaxSteps: 50_000_000}, // K=4 does not finish in 30 min on 16 cores
 			{Name: "VxC23", Pkg: "github.com/goplus/xgo/format", Files: []string{"c23/c23.go"},
 				Quick: map[string]int{"K": 2, "LEAD": 3}, Thorough: map[string]int{"K": 3, "LEAD": 3}, MaxSteps: 50_000_000},
 		},
@@ -296,7 +296,7 @@ func init() {
 		},
 		Harnesses: []harnessSpec{
 			{Name: "VxC13", Pkg: "github.com/goplus/xgo/parser", Files: []string{"c13/c13.go"},
-				Quick: map[string]int{"N": 2}, Thorough: map[string]int{"N": 3}, Variants: c15Variants(70), ThoroughCore: 16, MaxSteps: 3_000_000, BudgetViolation: true, ReplayTimeout: 20 * time.Second},
+				Quick: map[string]int{"N": 2}, Thorough: map[string]int{"N": 3}, Variants: c15Variants(70), ThoroughCore: 6, MaxSteps: 3_000_000, BudgetViolation: true, ReplayTimeout: 20 * time.Second},
 		},
 	})
 
@@ -314,7 +314,7 @@ func init() {
 		Harnesses: []harnessSpec{
 			{Name: "VxC17Corpus", Pkg: "github.com/goplus/xgo/parser", Files: spanFiles, Quick: map[string]int{"N": 0, "P": 0, "REPARSE": 40, "NOCR": 1}, MaxSteps: 60_000_000},
 			{Name: "VxC17", Pkg: "github.com/goplus/xgo/parser", Files: spanFiles,
-				Quick: map[string]int{"N": 2, "REPARSE": 6, "NOCR": 1}, Thorough: map[string]int{"N": 3, "REPARSE": 6, "NOCR": 1}, Variants: c15Variants(70), ThoroughCore: 12, MaxSteps: 6_000_000},
+				Quick: map[string]int{"N": 2, "REPARSE": 6, "NOCR": 1}, Thorough: map[string]int{"N": 3, "REPARSE": 6, "NOCR": 1}, Variants: c15Variants(70), ThoroughCore: 5, MaxSteps: 6_000_000},
 		},
 	})
 	register(&checkSpec{
@@ -327,7 +327,7 @@ func init() {
 		Harnesses: []harnessSpec{
 			{Name: "VxC18Corpus", Pkg: "github.com/goplus/xgo/parser", Files: spanFiles, Quick: map[string]int{"N": 0, "P": 0, "REPARSE": 0, "NOCR": 0}, MaxSteps: 60_000_000},
 			{Name: "VxC18", Pkg: "github.com/goplus/xgo/parser", Files: spanFiles,
-				Quick: map[string]int{"N": 2, "REPARSE": 0, "NOCR": 0}, Thorough: map[string]int{"N": 3, "REPARSE": 0, "NOCR": 0}, Variants: c15Variants(70), ThoroughCore: 12, MaxSteps: 6_000_000},
+				Quick: map[string]int{"N": 2, "REPARSE": 0, "NOCR": 0}, Thorough: map[string]int{"N": 3, "REPARSE": 0, "NOCR": 0}, Variants: c15Variants(70), ThoroughCore: 5, MaxSteps: 6_000_000},
 		},
 	})
 
@@ -588,7 +588,7 @@ func init() {
 		Harnesses: []harnessSpec{
 			{Name: "VxC14Corpus", Pkg: "github.com/goplus/xgo/parser", Files: c14Files, Quick: map[string]int{"N": 0, "P": 0, "KF_BANG": 0, "KF_GENERICS": 0}, MaxSteps: 80_000_000},
 			{Name: "VxC14", Pkg: "github.com/goplus/xgo/parser", Files: c14Files,
-				Quick: map[string]int{"N": 2, "KF_BANG": 0, "KF_GENERICS": 0}, Thorough: map[string]int{"N": 3, "KF_BANG": 0, "KF_GENERICS": 0}, Variants: c15Variants(44), ThoroughCore: 16, MaxSteps: 8_000_000},
+				Quick: map[string]int{"N": 2, "KF_BANG": 0, "KF_GENERICS": 0}, Thorough: map[string]int{"N": 3, "KF_BANG": 0, "KF_GENERICS": 0}, Variants: c15Variants(44), ThoroughCore: 6, MaxSteps: 8_000_000},
 		},
 	})
 
@@ -604,7 +604,7 @@ func init() {
 		Harnesses: []harnessSpec{
 			{Name: "VxC37Corpus", Pkg: "github.com/goplus/xgo/ast/togo", Files: c37Files, Quick: map[string]int{"N": 0, "P": 0}, MaxSteps: 80_000_000},
 			{Name: "VxC37", Pkg: "github.com/goplus/xgo/ast/togo", Files: c37Files,
-				Quick: map[string]int{"N": 2}, Thorough: map[string]int{"N": 3}, Variants: c15Variants(40), ThoroughCore: 16, MaxSteps: 8_000_000},
+				Quick: map[string]int{"N": 2}, Thorough: map[string]int{"N": 3}, Variants: c15Variants(40), ThoroughCore: 6, MaxSteps: 8_000_000},
 		},
 	})
 
@@ -639,7 +639,7 @@ func init() {
 		},
 		Harnesses: []harnessSpec{
 			{Name: "VxC19", Pkg: "github.com/goplus/xgo/format", Files: []string{"c19/c19.go", "gen:astkinds:ast"},
-				Quick: map[string]int{"N": 2, "WHICH": 19, "KF_DECLSEMI": 0}, Thorough: map[string]int{"N": 3, "WHICH": 19, "KF_DECLSEMI": 0}, Variants: c15Variants(77), ThoroughCore: 12, MaxSteps: 30_000_000},
+				Quick: map[string]int{"N": 2, "WHICH": 19, "KF_DECLSEMI": 0}, Thorough: map[string]int{"N": 3, "WHICH": 19, "KF_DECLSEMI": 0}, Variants: c15Variants(77), ThoroughCore: 5, MaxSteps: 30_000_000},
 		},
 	})
 
@@ -653,7 +653,7 @@ func init() {
 		},
 		Harnesses: []harnessSpec{
 			{Name: "VxC19", Pkg: "github.com/goplus/xgo/format", Files: []string{"c19/c19.go", "gen:astkinds:ast"},
-				Quick: map[string]int{"N": 2, "WHICH": 20, "KF_DECLSEMI": 0, "KF_ONELINE_EMPTY": 0, "KF_PAREN_LINES": 0, "KF_ENV_LINES": 0}, Thorough: map[string]int{"N": 3, "WHICH": 20, "KF_DECLSEMI": 0, "KF_ONELINE_EMPTY": 0, "KF_PAREN_LINES": 0, "KF_ENV_LINES": 0}, Variants: c15Variants(77), ThoroughCore: 12, MaxSteps: 30_000_000},
+				Quick: map[string]int{"N": 2, "WHICH": 20, "KF_DECLSEMI": 0, "KF_ONELINE_EMPTY": 0, "KF_PAREN_LINES": 0, "KF_ENV_LINES": 0}, Thorough: map[string]int{"N": 3, "WHICH": 20, "KF_DECLSEMI": 0, "KF_ONELINE_EMPTY": 0, "KF_PAREN_LINES": 0, "KF_ENV_LINES": 0}, Variants: c15Variants(77), ThoroughCore: 5, MaxSteps: 30_000_000},
 		},
 	})
 
@@ -667,7 +667,7 @@ func init() {
 		},
 		Harnesses: []harnessSpec{
 			{Name: "VxC19", Pkg: "github.com/goplus/xgo/format", Files: []string{"c19/c19.go", "gen:astkinds:ast"},
-				Quick: map[string]int{"N": 2, "WHICH": 21, "KF_DECLSEMI": 0}, Thorough: map[string]int{"N": 3, "WHICH": 21, "KF_DECLSEMI": 0}, Variants: c15Variants(77), ThoroughCore: 12, MaxSteps: 30_000_000},
+				Quick: map[string]int{"N": 2, "WHICH": 21, "KF_DECLSEMI": 0}, Thorough: map[string]int{"N": 3, "WHICH": 21, "KF_DECLSEMI": 0}, Variants: c15Variants(77), ThoroughCore: 5, MaxSteps: 30_000_000},
 		},
 	})
 }
